@@ -7,6 +7,7 @@ Full / Empty exactly when the capacity / emptiness says so; a timed get on an
 empty queue raises Empty not before its timeout; task_done beyond the number of
 puts raises ValueError; join() returns at once when nothing is unfinished.
 """
+import itertools
 import json
 import queue as stdq
 import sys
@@ -125,6 +126,41 @@ def scen():
     return bad
 
 
+def scen_get_modes(ctx):
+    """every way of taking an item out gives its place back: after maxsize items were put and taken -- in each mix of
+    blocking, timed and non-blocking gets -- maxsize further puts must be accepted at once"""
+    bad = []
+    for modes in itertools.product(('block', 'timed', 'nowait'), repeat=2):
+        q = ctx.Queue(2)
+        q.put('a'); q.put('b')
+        got = []
+        for m in modes:
+            t0 = time.monotonic()
+            while True:
+                try:
+                    got.append(q.get() if m == 'block' else q.get(True, 2.0) if m == 'timed' else q.get_nowait())
+                    break
+                except stdq.Empty:
+                    if time.monotonic() - t0 > 5:
+                        break
+                    time.sleep(0.01)
+        if got != ['a', 'b']:
+            bad.append('Queue(2), gets %r: got %r' % (modes, got))
+            continue
+        try:
+            q.put_nowait('c'); q.put_nowait('d')
+        except stdq.Full:
+            bad.append('Queue(2): after two items were put and taken out again (%s / %s get) the empty queue refuses a put '
+                       'with Full: a get did not give its place back' % modes)
+        try:
+            while True:
+                q.get(True, 0.3)            # leave nothing for the feeder to write into a closed pipe
+        except stdq.Empty:
+            pass
+        q.close(); q.join_thread()
+    return bad
+
+
 def scen_simple(ctx):
     """SimpleQueue: every pipe operation happens with its lock held, the locks are free afterwards, objects round-trip"""
     bad = []
@@ -167,7 +203,7 @@ def scen_simple(ctx):
 def main():
     data = json.load(open(sys.argv[1]))
     print('replay of %s / %s' % (data['function'], data['obligation']))
-    bad = scen() + scen_simple(billiard.get_context())
+    bad = scen() + scen_simple(billiard.get_context()) + scen_get_modes(billiard.get_context())
     for b in bad[:8]:
         print('  violation on real code: ' + b)
     print('REPRODUCED on real code' if bad else 'not reproduced')
